@@ -354,6 +354,14 @@ func judge(cr *callResult, res *hx.Result) {
 		if c.Kind != "tpl" {
 			entry = "Call"
 		}
+		if budget := evaluationBudget(2*time.Second, c.Tpl); out.CPU > budget.Microseconds() {
+			// the request was answered inside the watchdog's allowance for its evaluations together, this one took
+			// more than an evaluation may
+			res.Dist("outcome=hang")
+			res.Fail("hang:"+hangShape(c), c, fmt.Sprintf("hang (%s took %.1fs of CPU time) although the result is not large: %s", entry, float64(out.CPU)/1e6, c.brief()))
+			res.Eval(c.key(), true)
+			return
+		}
 		if out.St == "panic" {
 			res.Dist("outcome=panic")
 			class := "panic:" + fnLabel + ":" + messageKind(out.Msg)
